@@ -298,4 +298,53 @@ example : (lp256 5000).inspect (ofString "$6$abc$x") = .ok none ∧ (lp256 5000)
   refine ⟨sha_identifies_only_own_prefix _ _ (by decide), sha_identifies_only_own_prefix _ _ (by decide),
     sha_identifies_only_own_prefix _ _ (by decide), sha_identifies_only_own_prefix _ _ (by decide)⟩
 
+/-! ### bcrypt-sha256: only the version the hasher implements is its own format -/
+
+/-- what is identified as the hasher's own is a PHC record of the bcrypt-sha256 definition **with v = 2** -/
+theorem bcsha_identify_requires_v2 (h : BcSha256Hasher) (s : Str) (hi : h.identify s = .ok true) :
+    ∃ info, h.inspect s = .ok (some info) ∧ phcField info "version_" = some (ofString "2") := by
+  unfold BcSha256Hasher.identify at hi
+  split at hi
+  · cases hi
+  · cases hi
+  · rename_i info hinfo
+    refine ⟨info, hinfo, ?_⟩
+    have : ownVersion info = true := by simpa using hi
+    unfold ownVersion at this
+    simpa using this
+
+/-- a record of any other version (an altered `v=` field) is foreign: not identified, verifies no password, asks for an update -/
+theorem bcsha_other_version_is_foreign (h : BcSha256Hasher) (s : Str) (info : Parsed) (hp : h.inspect s = .ok (some info))
+    (hv : phcField info "version_" ≠ some (ofString "2")) :
+    h.identify s = .ok false ∧ (∀ b, h.verify s b = .ok false) ∧ h.needsUpdate s = .ok true := by
+  have hown : ownVersion info = false := by
+    unfold ownVersion
+    simpa using hv
+  unfold BcSha256Hasher.identify BcSha256Hasher.verify BcSha256Hasher.needsUpdate
+  simp [hp, hown]
+
+/-- a string the inspector does not parse is foreign too, and parse errors propagate unchanged -/
+theorem bcsha_unparsed_is_foreign (h : BcSha256Hasher) (s : Str) (hp : h.inspect s = .ok none) :
+    h.identify s = .ok false ∧ (∀ b, h.verify s b = .ok false) ∧ h.needsUpdate s = .ok true := by
+  unfold BcSha256Hasher.identify BcSha256Hasher.verify BcSha256Hasher.needsUpdate
+  simp [hp]
+
+/-- own version: the answer is bcrypt's, and the update check compares the cost only -/
+theorem bcsha_own_version (h : BcSha256Hasher) (s : Str) (info : Parsed) (hp : h.inspect s = .ok (some info))
+    (hv : phcField info "version_" = some (ofString "2")) :
+    h.identify s = .ok true ∧
+    (∀ b, h.verify s b = .ok (h.check ((phcField info "type").getD []) (info.salt.getD []) (info.checksum.getD []) ((phcField info "rounds").getD []) b)) ∧
+    h.needsUpdate s = .ok (phcField info "rounds" != some (fmtDec (h.rounds : Int))) := by
+  have hown : ownVersion info = true := by
+    unfold ownVersion
+    simp [hv]
+  unfold BcSha256Hasher.identify BcSha256Hasher.verify BcSha256Hasher.needsUpdate
+  simp [hp, hown]
+
+/-- the hypotheses are met by concrete records: v=2 is own, v=0 parses but is foreign -/
+example : (match lpPhcParse bcryptSha256Phc (ofString "$bcrypt-sha256$v=2,t=2b,r=4$/vA2nrnSOqPYkI5hvvXaS.$Kf.zvUf1gDawJP6jX2Y/LTLb6P4hKBK") with
+    | .ok (some i) => phcField i "version_" | _ => none) = some (ofString "2") := by decide +kernel
+example : (match lpPhcParse bcryptSha256Phc (ofString "$bcrypt-sha256$v=0,t=2b,r=4$/vA2nrnSOqPYkI5hvvXaS.$Kf.zvUf1gDawJP6jX2Y/LTLb6P4hKBK") with
+    | .ok (some i) => phcField i "version_" | _ => none) = some (ofString "0") := by decide +kernel
+
 end Props.C20
